@@ -510,6 +510,10 @@ package xy
 //@   requires calc.stride >= 2 && whole(len(original), calc.stride) && len(original) >= calc.stride
 //@   ensures fresh(res) && whole(len(res), calc.stride) && len(res) >= calc.stride
 //@   modifies nothing
+//@   ensures [last-kept] forall j int :: 0 <= j && j < calc.stride ==> res[len(res) - calc.stride + j] == original[len(original) - calc.stride + j]
+//@   at stmt6: assert [duplicate-test] !(original[i] == original[i + calc.stride] && original[i + 1] == original[i + calc.stride + 1])
+//@   at stmt9: assert [neighbours] currentCoordinate[0] == original[i] && currentCoordinate[1] == original[i + 1] && nextCoordinate[0] == original[i + calc.stride] && nextCoordinate[1] == original[i + calc.stride + 1]
+//@   at stmt12: assert [appended] forall j int :: 0 <= j && j < calc.stride ==> cleanedRing[len(cleanedRing) - calc.stride + j] == original[i + j]
 //@   loop 1:
 //@     ghost q int = 0 step q + 1
 //@     ghost u int = 0 step cnt(len(cleanedRing), calc.stride)
